@@ -100,6 +100,9 @@ class Unit:
         """concurrent runs of the same unit (other sessions, mutant runs) share .work/<unit>: serialise them"""
         import fcntl
         os.makedirs(self.work, exist_ok=True)
+        if os.environ.get('VERIF_NOLOCK'):      # a child of ./check (tools/diffrun.py): the parent already holds the unit lock
+            self._lockf = True
+            return
         self._lockf = open(os.path.join(self.work, '.lock'), 'w')
         fcntl.flock(self._lockf, fcntl.LOCK_EX)
 
